@@ -124,6 +124,7 @@ def _explicit_trace(trace, v):
         t = {k: val for k, val in trace.items() if k != "steps"}
         t["steps"] = _copy(v["explicit"])
         t["from_sweep"] = True
+        t["mode"] = "explicit"
         return t
     return trace
 
